@@ -607,3 +607,97 @@ mod tests {
         assert_eq!(n, 1);
     }
 }
+
+/// Near-miss shapes of an item: every variant in which exactly one string is one byte longer or
+/// shorter, one array has one element more (a copy of its last element, or 0) or fewer, one map has
+/// one entry more or fewer, one integer crosses to the other major type, or one tag number is
+/// bumped. The result is well-formed; whether a target type must accept it is decided by the
+/// reference relation.
+pub fn near_misses(item: &Item) -> Vec<Item> {
+    let mut out = Vec::new();
+    match item {
+        Item::Uint(n, _) => {
+            out.push(Item::nint(*n));
+            out.push(Item::uint(n.wrapping_add(1)));
+        }
+        Item::Nint(n, _) => out.push(Item::uint(*n)),
+        Item::Bytes(d, StrForm::Def(_)) => {
+            let mut l = d.clone();
+            l.push(0);
+            out.push(Item::bytes(&l));
+            if !d.is_empty() {
+                out.push(Item::bytes(&d[..d.len() - 1]));
+            }
+            out.push(Item::Text(d.clone(), StrForm::Def(W::min_for(d.len() as u64))));
+        }
+        Item::Text(d, StrForm::Def(_)) => {
+            let mut l = d.clone();
+            l.push(b'z');
+            out.push(Item::Text(l, StrForm::Def(W::min_for(d.len() as u64 + 1))));
+            if !d.is_empty() && core::str::from_utf8(&d[..d.len() - 1]).is_ok() {
+                out.push(Item::Text(d[..d.len() - 1].to_vec(), StrForm::Def(W::min_for(d.len() as u64 - 1))));
+            }
+            out.push(Item::bytes(d));
+        }
+        Item::Array(v, _) => {
+            let mut more = v.clone();
+            more.push(v.last().cloned().unwrap_or(Item::uint(0)));
+            out.push(Item::array(more));
+            let mut more0 = v.clone();
+            more0.push(NULL);
+            out.push(Item::array(more0));
+            if !v.is_empty() {
+                out.push(Item::array(v[..v.len() - 1].to_vec()));
+                out.push(Item::array(v[1..].to_vec()));
+            }
+            out.push(Item::map(v.chunks(2).filter(|c| c.len() == 2).map(|c| (c[0].clone(), c[1].clone())).collect()));
+            for i in 0..v.len() {
+                for c in near_misses(&v[i]) {
+                    let mut v2 = v.clone();
+                    v2[i] = c;
+                    out.push(Item::array(v2));
+                }
+            }
+        }
+        Item::Map(v, _) => {
+            let mut more = v.clone();
+            more.push(v.last().cloned().unwrap_or((Item::uint(0), Item::uint(0))));
+            out.push(Item::map(more));
+            if !v.is_empty() {
+                out.push(Item::map(v[..v.len() - 1].to_vec()));
+            }
+            out.push(Item::array(v.iter().flat_map(|(k, x)| [k.clone(), x.clone()]).collect()));
+            for i in 0..v.len() {
+                for c in near_misses(&v[i].0) {
+                    let mut v2 = v.clone();
+                    v2[i].0 = c;
+                    out.push(Item::map(v2));
+                }
+                for c in near_misses(&v[i].1) {
+                    let mut v2 = v.clone();
+                    v2[i].1 = c;
+                    out.push(Item::map(v2));
+                }
+            }
+        }
+        Item::Tag(t, _, inner) => {
+            out.push(Item::tag(t.wrapping_add(1), (**inner).clone()));
+            out.push((**inner).clone());
+            for c in near_misses(inner) {
+                out.push(Item::tag(*t, c));
+            }
+        }
+        Item::Simple(s) => {
+            if *s == 22 {
+                out.push(UNDEFINED);
+            }
+            if *s == 20 || *s == 21 {
+                out.push(Item::uint((*s - 20) as u64));
+            }
+        }
+        Item::Float(b, FW::F32) => out.push(Item::f64(crate::float::f32_to_f64(*b as u32))),
+        Item::Float(b, FW::F64) => out.push(Item::uint(*b & 0xff)),
+        _ => {}
+    }
+    out
+}
